@@ -1,4 +1,147 @@
-import Sio.Model.Server
+/-
+  C12 — hostile input from one client is contained.
+
+  The theorems are *parametric in the decoder*: `dec : Str → Except Err (Packet × Nat)` is
+  universally quantified, so they hold for whatever the real decoder makes of a frame (every
+  packet type, namespace, id, attachment count, payload shape, or an exception), and for every
+  non-text value engine.io can hand up (`decodeOdd`).  `view t s` erases everything indexed by
+  transport `t` or by one of its sessions, the global counters and the `call()` results.
+
+  What is proved: a frame from `t`, in any well-formed state, leaves `view t` unchanged, sends
+  only to `t`, invokes handlers only with a session id of `t`, fires only callbacks registered
+  for a session of `t` (`step_confined`; sequences: `hostile_run_confined`); an undecodable frame
+  changes nothing and reaches no handler (`undecodable_inert`); what a frame makes the server
+  store is bounded by item counts that do not depend on any declared number (`bounded_reserve`).
+
+  What is NOT proved (full noninterference
+    `observeOthers (run (interleave hostile others)) = observeOthers (run others)`):
+  the second unwinding lemma — "inputs of the others produce the same outputs and view-equal
+  successors from view-equal states" — is false for `view` as literal equality of outputs, for
+  two reasons that are properties of the model (and of the code), not of the proof:
+    1. session ids are allocated from one global counter (`nextSid`; in the code: random ids):
+       a hostile CONNECT shifts the *names* of the sessions the others get afterwards, so
+       outputs agree only up to a renaming of session ids (the harness renames by order of first
+       appearance);
+    2. the handler scripts are indexed by global invocation counters (`nConn`, `nEv`, `nDisc`):
+       a hostile CONNECT / EVENT / DISCONNECT that reaches a handler advances them, so the
+       *scripted* outcomes of the others' later handler calls shift.  With outcome functions
+       that do not depend on the counters (e.g. constant scripts) only reason 1 remains.
+  Closing the gap needs `step` to be shown equivariant under renamings of session ids; the
+  statement would be `observeOthers ρ (run …) = observeOthers (run …)` for the renaming `ρ`
+  induced by the two histories.  That is not done here.  `step_confined` is the first unwinding
+  lemma at full strength.
+-/
+import Sio.Lemmas.ServerBound
 namespace Sio.C12
-theorem placeholder_stub : True := trivial
+open Sio Sio.Server Sio.Rooms
+
+variable {dec : Str → Except Err (Packet × Nat)} {cfg : Cfg}
+
+/-! ### demo state: transports A (hostile) and B, both connected to `/`, B has a callback
+    outstanding and a room -/
+
+def reg0 : Registry := ⟨fun _ _ => true, fun _ => true, fun _ => false, fun _ _ => false⟩
+def cfg0 : Cfg := ⟨false, none, false, reg0, ⟨fun _ => .accept, fun _ => .ret .none, fun _ => .ok⟩⟩
+/-- toy decoder: "c" CONNECT, "d" DISCONNECT, "a" ACK id 1, "x…" undecodable -/
+def dec0 : Str → Except Err (Packet × Nat)
+  | ['c'] => .ok (⟨CONNECT, none, none, none⟩, 0)
+  | ['d'] => .ok (⟨DISCONNECT, none, none, none⟩, 0)
+  | ['a'] => .ok (⟨ACK, none, some 1, some (.arr [])⟩, 0)
+  | ['h'] => .ok (⟨BINARY_EVENT, none, none, none⟩, 9999999999)
+  | _ => .error .valueError
+def tA : Eio := ['A']
+def tB : Eio := ['B']
+def nsRoot : Ns := ['/']
+def hist0 : List Input :=
+  [.eioConnect tA, .eioConnect tB, .frame tA (.str ['c']), .frame tB (.str ['c']),
+   .enterRoom (sidName 1) nsRoot ['r'], .emit ['e'] .none nsRoot (.one (sidName 1)) [] (some 7)]
+def demo0 : Srv := (run dec0 cfg0 {} hist0).1
+theorem demo0_wf : Server.WF demo0 := Server.WF.init.run dec0 cfg0 hist0
+
+/-! ### `step_confined` -/
+
+/-- A frame from transport `t` — whatever it decodes to — leaves everything the others can see
+    unchanged, and each of its outputs is: a packet for `t`; a handler invocation that carries a
+    session id of `t`; a callback that was outstanding for the session `t` has on the ACK's
+    namespace (`Fires`); or a contained exception.  Never a `result` / `timeout`. -/
+theorem step_confined {s : Srv} (h : Server.WF s) (t : Eio) (v : J) :
+    view t (step dec cfg s (.frame t v)).1 = view t s ∧
+    ∀ o ∈ (step dec cfg s (.frame t v)).2, o.hostileOk dec cfg s t v := by
+  rw [step]
+  exact ⟨view_handleFrame h dec cfg t v, frame_outs h dec cfg t v⟩
+
+-- the hostile transport disconnects, reconnects and floods: B's rooms, callback, counter stay
+example : (view tA (run dec0 cfg0 demo0
+    [.frame tA (.str ['d']), .frame tA (.str ['c']), .frame tA (.str ['a']),
+     .frame tA (.str ['h'])]).1).cbs = [(sidName 1, 1, .user 7)] := by decide
+
+/-- In particular: no packet to another transport, and no callback of another transport's
+    session (a callback that fires was outstanding for a session that lives on `t`). -/
+theorem step_confined_others {s : Srv} (h : Server.WF s) (t : Eio) (v : J) :
+    (∀ t' p, Out.send t' p ∈ (step dec cfg s (.frame t v)).2 → t' = t) ∧
+    (∀ n args, Out.callback n args ∈ (step dec cfg s (.frame t v)).2 →
+      ∃ sid i, onT s.rooms t sid = true ∧ (sid, i, CbTok.user n) ∈ s.cbs) := by
+  have hc := (step_confined (dec := dec) (cfg := cfg) h t v).2
+  constructor
+  · intro t' p hm; exact hc _ hm
+  · intro n args hm
+    obtain ⟨nsp, id, data, s₀, sid, i, _, hs, _, hcb, _, _⟩ := hc _ hm
+    exact ⟨sid, i, onT_of_sidOf hs, hcb⟩
+
+/-- Any number of frames from `t` in a row: the others' view is the same afterwards, every
+    packet sent went to `t`, and no `result` / `timeout` was produced. -/
+theorem hostile_run_confined {s : Srv} (h : Server.WF s) (t : Eio) (vs : List J) :
+    view t (run dec cfg s (vs.map (fun v => Input.frame t v))).1 = view t s ∧
+    ∀ o ∈ (run dec cfg s (vs.map (fun v => Input.frame t v))).2,
+      ∀ t' p, o = .send t' p → t' = t := by
+  induction vs generalizing s with
+  | nil => simp [run_nil]
+  | cons v vs ih =>
+    rw [List.map_cons, run_cons]
+    have h1 := step_confined (dec := dec) (cfg := cfg) h t v
+    have h2 := ih (h.step dec cfg (.frame t v))
+    refine ⟨h2.1.trans h1.1, ?_⟩
+    intro o ho t' p heq
+    rcases List.mem_append.mp ho with ho | ho
+    · subst heq; exact h1.2 _ ho
+    · exact h2.2 o ho t' p heq
+
+/-! ### `undecodable_inert` -/
+
+/-- A text frame the decoder rejects, while no binary packet of `t` is being reassembled: the
+    state is unchanged and the only output is the contained exception — no handler, no packet.
+    (While a binary packet is pending, *any* frame is taken as its next attachment: it is stored,
+    `bounded_reserve`, and still reaches no handler and no other client, `step_confined`.) -/
+theorem undecodable_inert {s : Srv} {t : Eio} {c : Char} {cs : Str} {e : Err}
+    (hd : dec (c :: cs) = .error e) (hb : s.binbuf.find? (fun x => x.1 = t) = none) :
+    step dec cfg s (.frame t (.str (c :: cs))) = (s, [.raised e]) := by
+  rw [step, handleFrame_text dec cfg hb]
+  simp only [frameDecode, hd]
+
+example : dec0 ['x', '9'] = .error .valueError ∧
+    demo0.binbuf.find? (fun x => x.1 = tA) = none := ⟨rfl, rfl⟩
+
+/-- a stray binary frame (no binary packet pending) is a contained `TypeError` -/
+theorem stray_binary_inert {s : Srv} {t : Eio} {b : UInt8} {bs : Bytes}
+    (hb : s.binbuf.find? (fun x => x.1 = t) = none) :
+    step dec cfg s (.frame t (.bin (b :: bs))) = (s, [.raised .typeError]) := by
+  rw [step, handleFrame_text dec cfg hb]
+  simp only [frameDecode]
+
+/-! ### `bounded_reserve` -/
+
+/-- What one frame can make the server store, for every decoder result (so: whatever attachment
+    count or id the frame declares): at most two room entries, one queued handler, one `call()`
+    result, one reassembly-buffer entry; callbacks, counters, sessions, environ do not grow; and
+    every partial packet in the buffer afterwards is an old one, a new header with *no*
+    attachment stored, or an old one with exactly this frame appended.  The declared count
+    (`Partial.need`) is kept as a number; nothing is sized by it. -/
+theorem bounded_reserve {s : Srv} (h : Server.WF s) (t : Eio) (v : J) :
+    FrameBound s (step dec cfg s (.frame t v)).1 v := by
+  rw [step]; exact bound_handleFrame h dec cfg t v
+
+-- a header that announces 9999999999 attachments stores one entry with no attachment
+example : ((step dec0 cfg0 demo0 (.frame tA (.str ['h']))).1.binbuf.map
+    (fun e => (e.1, e.2.need, e.2.got.length))) = [(tA, 9999999999, 0)] := by decide
+
 end Sio.C12
